@@ -32,11 +32,12 @@ inductive Action where
 def decide (p m u : Rat) : Action :=
   if u < p then (if m > 0 then .buy else if m < 0 then .sell else .nothing) else .nothing
 
-/-- In the saturated regime (probability ≥ 1 whenever `M ≠ 0`) the per-step counts
-`(market buys, market sells, limit buys, limit sells)` of `n` traders are determined. -/
-def expected (saturated : Bool) (n : Nat) (ratio m : Rat) : Option (Nat × Nat × Nat × Nat) :=
+/-- In the saturated regime (market-order probability `pm ≥ 1` whenever `M ≠ 0`) the per-step counts
+`(market buys, market sells, limit buys, limit sells)` of `n` traders are determined, provided the
+limit-order probability `ratio · pm` is 0 or at least 1 too. -/
+def expected (saturated : Bool) (n : Nat) (ratio pm m : Rat) : Option (Nat × Nat × Nat × Nat) :=
   if !saturated then none
-  else if ratio != 0 && ratio < 1 then none
+  else if ratio != 0 && ratio * pm < 1 then none
   else
     let l := if ratio == 0 then 0 else n
     if m > 0 then some (n, 0, l, 0) else if m < 0 then some (0, n, 0, l) else some (0, 0, 0, 0)
